@@ -545,6 +545,22 @@ func genJPEG(rt *rapid.T, maxICC int, exhaustPerm []int) Case {
 			items = append(items, ch)
 		}
 	}
+	// half of the files get a COM segment in front of one ICC chunk (or the frame header) sized so that one of that
+	// segment's positions - start of its payload, end of its ICC header, its end - lies within 4 bytes of a
+	// multiple of 4096 in the file, where a reader's buffer is refilled
+	if len(items) > 0 && rapid.Bool().Draw(rt, "align") {
+		idx := rapid.IntRange(0, len(items)-1).Draw(rt, "alignitem")
+		off := 2
+		for _, it := range items[:idx] {
+			off += 4 + len(it.seg.Data)
+		}
+		x := []int{4, 4 + 14, 4 + len(items[idx].seg.Data)}[rapid.IntRange(0, 2).Draw(rt, "alignwhat")]
+		delta := rapid.IntRange(-4, 4).Draw(rt, "aligndelta")
+		L := ((delta-(off+4+x))%4096 + 8192) % 4096
+		pad := item{kind: "fill", seg: build.Seg{Marker: 0xFE, Data: make([]byte, L)}}
+		items = append(items[:idx], append([]item{pad}, items[idx:]...)...)
+		note += fmt.Sprintf("; item %d aligned to a 4096 boundary by a %d-byte COM segment", idx, L)
+	}
 	var segs []build.Seg
 	fillBytes := rapid.IntRange(0, 4).Draw(rt, "fillbytes") == 0
 	for _, it := range items {
